@@ -401,20 +401,45 @@ func genNpm(r *rand.Rand) npmCase {
 			}
 		}
 	}
-	// the same registry package through two or three entries of "dependencies": its own name and npm: aliases, at the
-	// identical or another range (kept out of the other two sections: their cascade replaces by package name, in Go map order)
+	// the same registry package through two or three entries: its own name and npm: aliases, at the identical or another
+	// range; all in "dependencies", or spread over the three sections (since fix 8304c0d6 the section cascade of Read keys a
+	// requirement by package AND alias: "lib" in dependencies and "lib-legacy1": "npm:lib@…" in devDependencies are two
+	// requirements; before it the alias replaced the plain entry)
 	if r.Intn(4) == 0 {
 		lib := []string{"lib", "@sc/lib.js"}[r.Intn(2)]
 		rng := npmVers[r.Intn(4)]
-		c.sec[2] = append(c.sec[2], kv{lib, rng})
+		spread := r.Intn(2) == 0
+		place := func(e kv) {
+			si := 2
+			if spread {
+				si = r.Intn(3)
+			}
+			c.sec[si] = append(c.sec[si], e)
+		}
+		place(kv{lib, rng})
 		for i, n := 0, 1+r.Intn(2); i < n; i++ {
 			ar := rng
 			if r.Intn(3) == 0 {
 				ar = npmVers[r.Intn(4)]
 			}
-			c.sec[2] = append(c.sec[2], kv{fmt.Sprintf("lib-legacy%d", i+1), "npm:" + lib + "@" + ar})
+			place(kv{fmt.Sprintf("lib-legacy%d", i+1), "npm:" + lib + "@" + ar})
 		}
-		r.Shuffle(len(c.sec[2]), func(i, j int) { c.sec[2][i], c.sec[2][j] = c.sec[2][j], c.sec[2][i] })
+		if spread && r.Intn(3) == 0 { // one of the aliases once more in another section, at another range: still one requirement
+			place(kv{"lib-legacy1", "npm:" + lib + "@" + npmVers[r.Intn(4)]})
+		}
+		for si := 0; si < 3; si++ {
+			// a section holds a key once
+			seenK := map[string]bool{}
+			var out []kv
+			for _, e := range c.sec[si] {
+				if !seenK[e.k] {
+					seenK[e.k] = true
+					out = append(out, e)
+				}
+			}
+			c.sec[si] = out
+			r.Shuffle(len(c.sec[si]), func(i, j int) { c.sec[si][i], c.sec[si][j] = c.sec[si][j], c.sec[si][i] })
+		}
 	}
 	// updates are drawn from what Read will report: every entry as (real name, alias, version)
 	type req struct {
@@ -759,9 +784,36 @@ func xmlEsc(s string) string {
 	return strings.ReplaceAll(s, ">", "&gt;")
 }
 
-// renderPom writes the abstract pom as XML. commentInVersion / cdataInVersion decorate the first
-// dependency's <version> (used only by the no-update identity cases).
-func renderPom(c pomCase, lr *rand.Rand, commentInVersion, cdataInVersion bool) string {
+// emptyMgmt chooses how a pom WITHOUT dependencyManagement entries spells that: 0 = no element at all, 1 = <dependencyManagement/>
+// (op pome), 2 = <dependencyManagement> holding <dependencies/> (op pomf), 3..7 = open/close forms (empty, white space, a comment,
+// an empty <dependencies></dependencies> on one line or two), drawn from the pom part of the case line.  New entries (updates whose
+// key the pom does not hold) have to land inside that element (fix b6e9d07e: they were dropped and Write returned nil).
+func emptyMgmt(c pomCase, variant string) int {
+	for _, d := range c.deps {
+		if d.origin == "management" {
+			return 0
+		}
+	}
+	switch variant {
+	case "e":
+		return 1
+	case "f":
+		return 2
+	case "c", "d":
+		return 0
+	}
+	mr := layoutRng(layoutKey(c) + "#mgmt")
+	if mr.Intn(4) != 0 {
+		return 0
+	}
+	return 3 + mr.Intn(5)
+}
+
+// renderPom writes the abstract pom as XML. variant "c" / "d" put a comment / CDATA inside the first
+// dependency's <version> (used only by the no-update identity cases), "e" / "f" see emptyMgmt.
+func renderPom(c pomCase, lr *rand.Rand, variant string) string {
+	commentInVersion, cdataInVersion := variant == "c", variant == "d"
+	shape := emptyMgmt(c, variant)
 	var sb strings.Builder
 	ind := []string{"  ", "    ", "\t"}[lr.Intn(3)]
 	if lr.Intn(2) == 0 {
@@ -878,6 +930,34 @@ func renderPom(c pomCase, lr *rand.Rand, commentInVersion, cdataInVersion bool) 
 			}
 		}
 		writeMgmt := func() {
+			if origin == "" {
+				switch shape {
+				case 1:
+					w(depth, "<dependencyManagement/>")
+				case 2:
+					w(depth, "<dependencyManagement>")
+					w(depth+1, "<dependencies/>")
+					w(depth, "</dependencyManagement>")
+				case 3:
+					w(depth, "<dependencyManagement></dependencyManagement>")
+				case 4:
+					w(depth, "<dependencyManagement>")
+					w(depth, "</dependencyManagement>")
+				case 5:
+					w(depth, "<dependencyManagement>")
+					w(depth+1, "<!-- nothing managed yet -->")
+					w(depth, "</dependencyManagement>")
+				case 6:
+					w(depth, "<dependencyManagement>")
+					w(depth+1, "<dependencies></dependencies>")
+					w(depth, "</dependencyManagement>")
+				case 7:
+					w(depth, "<dependencyManagement>")
+					w(depth+1, "<dependencies>")
+					w(depth+1, "</dependencies>")
+					w(depth, "</dependencyManagement>")
+				}
+			}
 			if len(ms) > 0 {
 				w(depth, "<dependencyManagement>")
 				w(depth+1, "<dependencies>")
@@ -1075,10 +1155,10 @@ type pomSession struct {
 	src string
 }
 
-func openPom(c pomCase, seedLine string, comment, cdata bool) (*pomSession, error) {
+func openPom(c pomCase, seedLine string, variant string) (*pomSession, error) {
 	dir, err := os.MkdirTemp(scratch, "p")
 	must(err)
-	src := renderPom(c, layoutRng(seedLine), comment, cdata)
+	src := renderPom(c, layoutRng(seedLine), variant)
 	must(os.WriteFile(filepath.Join(dir, "pom.xml"), []byte(src), 0o644))
 	rw, err := guidedremediation.VerifMavenReadWriter("http://127.0.0.1:1/")
 	must(err)
@@ -1100,10 +1180,10 @@ func layoutKey(c pomCase) string {
 
 // runPom returns the requirement list the real Read reported before the write (effective versions; last token of the
 // case line) and the implementation's reply.
-func runPom(c pomCase, comment, cdata bool) (before string, reply string) {
+func runPom(c pomCase, variant string) (before string, reply string) {
 	before = "-"
 	reply = hx.Guard(func() string {
-		s, err := openPom(c, layoutKey(c), comment, cdata)
+		s, err := openPom(c, layoutKey(c), variant)
 		if err != nil {
 			return "r=readerr"
 		}
@@ -1168,12 +1248,20 @@ func runPom(c pomCase, comment, cdata bool) (before string, reply string) {
 		if os.Getenv("C13_DUMP") != "" {
 			fmt.Fprintf(os.Stderr, "---- in\n%s\n---- out\n%s\n----\n", s.src, b)
 		}
+		// the writer re-wraps the inner XML of dependencyManagement, so a self-closing <dependencyManagement/> comes back as
+		// <dependencyManagement></dependencyManagement> (same tokens); for the variant that contains one, bytes are compared
+		// with that spelling.  (<dependencies/> inside it is a token that passes through and stays as it is.)
+		src, sc := s.src, "0"
+		if variant == "e" {
+			src = strings.ReplaceAll(src, "<dependencyManagement/>", "<dependencyManagement></dependencyManagement>")
+			sc = hx.B(src != s.src)
+		}
 		id, tok := "-", "-"
 		if len(c.ups) == 0 {
-			id = hx.B(string(b) == s.src)
+			id = hx.B(string(b) == src)
 			tok = hx.B(sameTokens(s.src, string(b)))
 		}
-		return fmt.Sprintf("r=ok deps=%s props=%s reqs=%s rb=%s id=%s tok=%s rest=%s", post.deps, post.props, post.reqs, pre.reqs, id, tok, hx.B(maskValues(s.src) == maskValues(string(b))))
+		return fmt.Sprintf("r=ok deps=%s props=%s reqs=%s rb=%s id=%s tok=%s rest=%s sc=%s", post.deps, post.props, post.reqs, pre.reqs, id, tok, hx.B(maskValues(src) == maskValues(string(b))), sc)
 	})
 	return before, reply
 }
@@ -1298,8 +1386,35 @@ func genPom(r *rand.Rand) pomCase {
 	gs := []string{"g1", "org.g2"}
 	as := []string{"a", "b", "c", "d", "e"}
 	used := map[string]bool{}
+	// every sixth pom spells some group ids of its <dependencies> / dependencyManagement entries through the project's own
+	// coordinates (sibling modules: ${project.groupId}, ${pom.groupId}, ${project.groupId}.sub, the version as part of an
+	// artifact id); every twentieth through a property of the pom (class C13/pom-key-property)
+	coordKeys, propKeys := r.Intn(6) == 0, r.Intn(20) == 0
+	if propKeys {
+		c.props = append(c.props, pprop{"", "grp", gs[r.Intn(2)]})
+	}
 	add := func(origin string, avail []string, allowDupKey bool) {
 		d := pdep{origin: origin, g: gs[r.Intn(2)], a: as[r.Intn(len(as))], ver: version(avail)}
+		if !strings.HasPrefix(origin, "profile@") {
+			if coordKeys && r.Intn(2) == 0 {
+				switch r.Intn(6) {
+				case 0, 1:
+					d.g = "${project.groupId}"
+				case 2:
+					d.g = "${pom.groupId}"
+				case 3:
+					d.g = "${project.groupId}.sub"
+				case 4:
+					d.a = d.a + "-${project.version}"
+				default:
+					d.g = "root.g" // the literal spelling of the same group, next to the placeholder ones
+				}
+			} else if propKeys && origin == "" && r.Intn(2) == 0 {
+				// only in <dependencies>: the entry the writer adds for it goes to dependencyManagement, where deps.dev keeps the
+				// first of two entries with one interpolated key (a de-duplication the model of Read does not have)
+				d.g = "${grp}"
+			}
+		}
 		if r.Intn(12) == 0 {
 			d.typ = []string{"pom", "test-jar", "jar"}[r.Intn(3)]
 		}
@@ -1309,8 +1424,8 @@ func genPom(r *rand.Rand) pomCase {
 		if r.Intn(40) == 0 {
 			d.ws = true
 		}
-		k := d.g + ":" + d.a + ":" + normTyp(d.typ) + ":" + d.cls
-		if used[origin+"|"+k] { // one section never holds the same key twice
+		k := resolveCoord(c, d.g) + ":" + resolveCoord(c, d.a) + ":" + normTyp(d.typ) + ":" + d.cls
+		if used[origin+"|"+k] { // one section never holds the same key twice (as Read sees the keys: interpolated)
 			return
 		}
 		if used["*|"+k] && !allowDupKey {
@@ -1334,7 +1449,10 @@ func genPom(r *rand.Rand) pomCase {
 		} else {
 			v.cls = "tests"
 		}
-		k := v.g + ":" + v.a + ":" + normTyp(v.typ) + ":" + v.cls
+		if strings.Contains(v.g, "${grp}") {
+			v.origin = ""
+		}
+		k := resolveCoord(c, v.g) + ":" + resolveCoord(c, v.a) + ":" + normTyp(v.typ) + ":" + v.cls
 		if !used["*|"+k] {
 			used[v.origin+"|"+k] = true
 			used["*|"+k] = true
@@ -1366,7 +1484,7 @@ func genPom(r *rand.Rand) pomCase {
 
 // pomUpdates derives candidate updates from what the real Read reports for this pom; nil when the pom is unreadable.
 func pomCandidates(c pomCase) []pupd {
-	s, err := openPom(c, layoutKey(c), false, false)
+	s, err := openPom(c, layoutKey(c), "")
 	if err != nil {
 		return nil
 	}
@@ -1383,10 +1501,33 @@ func pomCandidates(c pomCase) []pupd {
 	return out
 }
 
+// resolveCoord interpolates a group / artifact id the way Read does for the generated poms (project root.g, universal properties).
+func resolveCoord(c pomCase, s string) string {
+	out, ok := interp(s, func(n string) (string, bool) {
+		switch n {
+		case "project.groupId", "pom.groupId", "groupId":
+			return "root.g", true
+		case "project.version", "pom.version", "version":
+			return c.projVersion, true
+		}
+		val, ok := "", false
+		for _, p := range c.props {
+			if p.origin == "" && p.name == n {
+				val, ok = p.value, true
+			}
+		}
+		return val, ok
+	})
+	if !ok {
+		return s
+	}
+	return out
+}
+
 func pickTo(r *rand.Rand, c pomCase, u pupd) string {
 	// often: a version that fits the literal parts of the dependency's raw version
 	for _, d := range c.deps {
-		if d.g+":"+d.a == u.name && strings.Contains(d.ver, "${") && r.Intn(4) != 0 {
+		if resolveCoord(c, d.g)+":"+resolveCoord(c, d.a) == u.name && strings.Contains(d.ver, "${") && r.Intn(4) != 0 {
 			fit := d.ver
 			for strings.Contains(fit, "${") {
 				i := strings.Index(fit, "${")
@@ -1402,8 +1543,30 @@ func pickTo(r *rand.Rand, c pomCase, u pupd) string {
 	return pomTo[r.Intn(len(pomTo))]
 }
 
-func emitPom(r *rand.Rand, c pomCase, thorough bool, emit func(pomCase, bool, bool)) {
+func emitPom(r *rand.Rand, c pomCase, thorough bool, emit0 func(pomCase, string)) {
 	cands := pomCandidates(c)
+	// every fourth pom without dependencyManagement entries carries a self-closing <dependencyManagement/> or <dependencies/> there
+	variant := ""
+	if emptyMgmt(c, "e") != 0 {
+		switch r.Intn(8) {
+		case 0:
+			variant = "e"
+		case 1:
+			variant = "f"
+		}
+	}
+	emptyElem := emptyMgmt(c, variant) != 0
+	emit := func(c pomCase, comment, cdata bool) {
+		switch {
+		case comment:
+			emit0(c, "c")
+		case cdata:
+			emit0(c, "d")
+		default:
+			emit0(c, variant)
+		}
+	}
+	absent := pupd{name: "absent.g:absent-a", from: "1", to: "2"}
 	// the no-update case, plain and with a comment / CDATA inside the first <version>
 	c0 := c
 	c0.ups = nil
@@ -1414,6 +1577,12 @@ func emitPom(r *rand.Rand, c pomCase, thorough bool, emit func(pomCase, bool, bo
 		emit(c0, false, true)
 	default:
 		emit(c0, false, false)
+	}
+	if emptyElem {
+		// a key the pom does not hold goes to dependencyManagement: the element is there but has no <dependencies> to add it to
+		c1 := c
+		c1.ups = []pupd{absent}
+		emit(c1, false, false)
 	}
 	if len(cands) == 0 {
 		return
@@ -1458,8 +1627,11 @@ func emitPom(r *rand.Rand, c pomCase, thorough bool, emit func(pomCase, bool, bo
 		if len(us) == 0 {
 			us = []pupd{cands[r.Intn(len(cands))]}
 		}
-		if r.Intn(30) == 0 {
-			us = append(us, pupd{name: "absent.g:absent-a", from: "1", to: "2"})
+		if r.Intn(30) == 0 || (emptyElem && r.Intn(2) == 0) {
+			us = append(us, absent)
+			if r.Intn(3) == 0 {
+				us = append(us, pupd{name: "absent.g:absent-b", typ: "test-jar", from: "1", to: "3.1"})
+			}
 		}
 		if r.Intn(25) == 0 && len(us) > 0 { // an old version that is not the one in the file: the pom writer never looks at it
 			us[0].from = "0.0.0-wrong"
@@ -1485,6 +1657,7 @@ type pchDecl struct {
 	Mgmt  bool
 	A     string // artifactId; groupId is dep.g
 	Ver   string
+	G     string `json:",omitempty"` // group id as written when it is not dep.g: ${project.groupId} / ${pom.groupId} (the CHILD's group, also in a parent)
 }
 type pchCase struct {
 	Depth      int   // number of parents: 1..3
@@ -1495,6 +1668,18 @@ type pchCase struct {
 	Ups        []int    // indices into Decls
 	To         []string // new version per update
 	SamePath   bool
+	ChildGroup bool `json:",omitempty"` // the child declares its own group id child.g (its parents are chain.g)
+}
+
+// pchGroup is the group id Read reports for a declaration.
+func pchGroup(c pchCase, d pchDecl) string {
+	if d.G == "" {
+		return "dep.g"
+	}
+	if c.ChildGroup {
+		return "child.g"
+	}
+	return "chain.g"
 }
 
 func (c pchCase) concrete() string {
@@ -1535,7 +1720,9 @@ func pchPom(c pchCase, level int) string {
 		}
 		w("  </parent>")
 	}
-	if level == c.Depth || !c.OmitGroup[level] {
+	if level == 0 && c.ChildGroup {
+		w("  <groupId>child.g</groupId>")
+	} else if level == c.Depth || !c.OmitGroup[level] {
 		w("  <groupId>chain.g</groupId>")
 	}
 	w(fmt.Sprintf("  <artifactId>level%d</artifactId>", level))
@@ -1564,7 +1751,11 @@ func pchPom(c pchCase, level int) string {
 		w(ind + "<dependencies>")
 		for _, d := range ds {
 			w(ind + "  <dependency>")
-			w(ind + "    <groupId>dep.g</groupId>")
+			if d.G != "" {
+				w(ind + "    <groupId>" + d.G + "</groupId>")
+			} else {
+				w(ind + "    <groupId>dep.g</groupId>")
+			}
 			w(ind + "    <artifactId>" + d.A + "</artifactId>")
 			w(ind + "    <version>" + d.Ver + "</version>")
 			w(ind + "  </dependency>")
@@ -1621,7 +1812,7 @@ func runPch(c pchCase) (line string, reply string) {
 			d := c.Decls[di]
 			for _, r := range reqList {
 				o, _ := r.Type.GetAttr(dep.MavenDependencyOrigin)
-				if r.Name == "dep.g:"+d.A && (o == "management") == d.Mgmt {
+				if r.Name == pchGroup(c, d)+":"+d.A && (o == "management") == d.Mgmt {
 					pus = append(pus, result.PackageUpdate{Name: r.Name, VersionFrom: r.Version, VersionTo: c.To[i], Type: r.Type.Clone()})
 					us = append(us, strings.Join([]string{hs(r.Name), hs(""), hs(""), hs(o), hs(r.Version), hs(c.To[i])}, ":"))
 					touched[d.Level] = true
@@ -1679,6 +1870,15 @@ func genPch(r *rand.Rand) pchCase {
 	if len(c.Decls) == 0 {
 		c.Decls = []pchDecl{{Level: c.Depth, A: "a", Ver: "1.0"}}
 	}
+	// every third layout: sibling-module style group ids, resolved with the coordinates of the project being read (the child)
+	if r.Intn(3) == 0 {
+		c.ChildGroup = r.Intn(2) == 0
+		for i := range c.Decls {
+			if r.Intn(2) == 0 {
+				c.Decls[i].G = []string{"${project.groupId}", "${pom.groupId}"}[r.Intn(2)]
+			}
+		}
+	}
 	for i := range c.Decls {
 		if r.Intn(2) == 0 {
 			c.Ups = append(c.Ups, i)
@@ -1711,14 +1911,9 @@ func main() {
 		out.Emit(l+" "+before, reply)
 	}
 	emitPP := func(s1, s2 string) { out.Emit("pp "+hs(s1)+" "+hs(s2), runPP(s1, s2)) }
-	emitPomCase := func(c pomCase, comment, cdata bool) {
-		l := c.line()
-		if comment {
-			l = "pomc" + l[3:]
-		} else if cdata {
-			l = "pomd" + l[3:]
-		}
-		before, reply := runPom(c, comment, cdata)
+	emitPomCase := func(c pomCase, variant string) {
+		l := "pom" + variant + c.line()[3:]
+		before, reply := runPom(c, variant)
 		out.Emit(l+" "+before, reply)
 	}
 
@@ -1744,8 +1939,8 @@ func main() {
 			case "pch":
 				line, reply := runPch(parsePch(t))
 				out.Emit(line, reply)
-			case "pom", "pomc", "pomd":
-				before, reply := runPom(parsePom(t), t[0] == "pomc", t[0] == "pomd")
+			case "pom", "pomc", "pomd", "pome", "pomf":
+				before, reply := runPom(parsePom(t), t[0][3:])
 				out.Emit(strings.Join(t[:5], " ")+" "+before, reply)
 			default:
 				out.Emit(l, "bad-case")
